@@ -106,3 +106,14 @@ prop("C16", "exploration", _MQ + "; oracle: every operation built into a message
      _b(2000, 60, 100000, 1200), probes=["mq-conn", "mq-disc"], technique="deterministic simulation of the real component with seeded fault placement and internal yield points")
 prop("C17", "exploration", _MQ + "; oracle: never two live queue goroutines for one peer (observation hook at start and exit), none alive after the last disconnect, blocks reach the wire in build order; distinct = distinct trace hash",
      _b(2000, 60, 100000, 1200), probes=["mq-conn", "mq-disc"], technique="deterministic simulation of the real component with seeded fault placement and internal yield points")
+
+prop("C11", "exploration",
+     "weak fit, stated as such: the verdict is a function of the message, the simulator adds stream behaviour. Two scripted peers exchange 1-6 generated well-formed messages per run on one stream through the real libp2p_impl.go / v2 codec with fragmented delivery (arbitrary byte counts per read): new/cancel/update requests with zero, negative and extreme priorities, generated selectors and 0-3 extensions (nil, null, scalars, bytes, links, nested maps and lists), responses with every defined status, every link action and 0-4 metadata entries, blocks under CIDv0/dag-pb, identity, sha2-512, dag-cbor and raw prefixes; decoded messages are compared field by field and in order with what was sent; the three extension codecs are round-tripped on generated values; distinct = distinct trace hash",
+     _b(1500, 60, 100000, 900), technique="deterministic simulation of the transport with fragmented delivery; seeded input generation for the codec")
+
+prop("C12", "exploration",
+     "weak fit, stated as such (coverage-guided fuzzing serves the input space far better). A real node runs an honest exchange with a real responder while a scripted hostile peer writes 1-5 raw byte strings, each on a stream of its own, to the node or to a scripted receiver: encodings of generated well-formed messages mutated by bit flips, truncation, oversize length prefix, unterminated varint, insertion, splice, wrong CBOR kinds (or unchanged); oracle: the worker process survives (crash attribution by the parent), the honest exchange delivers exactly the reference result, every message that decodes carries blocks keyed by the CID of their own bytes and 16-byte request IDs, every undecodable message sent to the node is reported as a receive error; distinct = distinct trace hash",
+     _b(1500, 60, 100000, 900), crash_is_violation=True, technique="deterministic simulation with byte-corruption fault injection on streams")
+prop("C08", "exploration",
+     "weakest fit, stated as such: the verdict is a pure function of the selector; the simulator only hosts the input sampling and shows that load does not change the verdict. A scripted requestor sends 1-5 generated selector specs (every explore clause kind, nested recursion, unions, interpret-as wrappers, limits 1-20, 99, 100, 101, 1000000 and none) to a default-configured real responder while an honest exchange runs; an independent walk over the spec's data-model form decides whether it contains a recursion that is unbounded or deeper than 100; the wire status must be RequestRejected exactly then; distinct = distinct trace hash",
+     _b(1500, 60, 100000, 900), technique="seeded input generation hosted by the deterministic simulator; independent reference predicate")
